@@ -242,6 +242,10 @@ impl StateSpace for RealVectorStateSpace {
             if lower >= upper {
                 return Err(StateSamplingError::ZeroVolume);
             }
+            // A finite interval whose width overflows cannot be sampled uniformly either.
+            if !(upper - lower).is_finite() {
+                return Err(StateSamplingError::UnboundedDimension { dimension_index: i });
+            }
             values.push(rng.random_range(lower..upper));
         }
 
